@@ -93,6 +93,27 @@ def takeChain : Nat → List (LStream α) → List (Ev α) × List α
       (e ++ e', v ++ v')
     else (e, v)
 
+/-! ### the two `itertools` primitives `take` / `first` are written with, as stream transformers (used by the regenerated
+fragment `Extracted/GenC06.lean`; `Extracted/EquivC06.lean` proves that their composition is `takeChain`) -/
+
+/-- what the consumer had to do before it reached this stream is charged to the stream's first output, or - when it has
+none - to its exhaustion -/
+def prefixEvents (pending : List (Ev α)) (s : LStream α) : LStream α :=
+  match s.cells with
+  | [] => ⟨[], pending ++ s.trailing⟩
+  | c :: cs => ⟨⟨pending ++ c.events, c.value⟩ :: cs, s.trailing⟩
+
+/-- `itertools.chain.from_iterable(streams)`: ONE lazy stream; the next stream is touched only when the previous one has run
+dry, and running it dry (its trailing events) comes before the first call of the next -/
+def chainStreams : List (LStream α) → LStream α
+  | [] => ⟨[], []⟩
+  | s :: rest =>
+    let r := prefixEvents s.trailing (chainStreams rest)
+    ⟨s.cells ++ r.cells, r.trailing⟩
+
+/-- `list(itertools.islice(stream, n))`: pull `n` outputs (or all there are) -/
+def isliceList (n : Nat) (s : LStream α) : List (Ev α) × List α := pullN n s
+
 /-- list semantics of the same ops (the values a stream must produce) and of each stage's inputs -/
 def LOp.runList : LOp α → List α → List α
   | .map f, xs => xs.map f
